@@ -20,6 +20,22 @@ EXPLANATION = (
     "(shared with C15). Convergence/liveness is not decided.")
 
 
+def _cmp_terms(f):
+    """(a, b) of a canonical lt(a,b)/eq(a,b) formula built by cmp_formula."""
+    from ..analysis import atoms_of
+    a = atoms_of(f)[0]
+    inner = a[a.index("(") + 1:-1]
+    depth = 0
+    for i, ch in enumerate(inner):
+        if ch in "([{":
+            depth += 1
+        elif ch in ")]}":
+            depth -= 1
+        elif ch == "," and depth == 0:
+            return inner[:i], inner[i + 1:]
+    return inner, inner
+
+
 def rules(P, R, prefix="C07"):
     for cfg, prog in P.items():
         env = Env(prog)
@@ -147,10 +163,36 @@ def rules(P, R, prefix="C07"):
                     R.judge(okf and okq and okb, prefix + ".Y3", key(sn, "retry: SyncRequest(digest, name) broadcast for pending requests" + tag), tb["sp"], "",
                             "the retry arm does not broadcast SyncRequest(digest, name) to broadcast_addresses(name) for the pending requests")
                     if fl:
-                        conds = [n for n in ir.walk(fl[0]["body"]) if n["k"] == "if"]
-                        okc = any("sync_retry_delay" in ir.pp(c["c"], maxlen=300) or "«u64»" in ctx.term(c["c"]) for c in conds)
-                        R.judge(okc, prefix + ".Y3", key(sn, "retry only for requests older than sync_retry_delay" + tag), fl[0]["sp"], "",
-                                "retry condition does not involve sync_retry_delay")
+                        # the broadcast must be reached for EVERY entry that is overdue and only for those:
+                        # its condition inside the loop is exactly `timestamp + sync_retry_delay < now` (or <=)
+                        flow = env.flow(sn)
+                        overdue = None
+                        for c in [n for n in ir.walk(fl[0]["body"]) if n["k"] == "if"]:
+                            cc = c["c"]
+                            if cc["k"] == "bin" and cc["op"] in ("<", "<=", ">", ">="):
+                                lo, hi = (cc["l"], cc["r"]) if cc["op"] in ("<", "<=") else (cc["r"], cc["l"])
+                                lt_ = ctx.term(lo)
+                                if "local:requests[*].1" in lt_ and "«u64»" in lt_ and "+" in lt_ and "local:requests" not in ctx.term(hi):
+                                    overdue = cmp_formula("<", lt_, ctx.term(hi))
+                        okc = overdue is not None
+                        why = "no test `timestamp + sync_retry_delay < now` in the retry loop"
+                        if okc:
+                            for b in bc:
+                                outer = flow.pathcond(fl[0])
+                                oc = outer[1] if outer[0] == "and" else [outer]
+                                pcb = flow.pathcond(b)
+                                ic = [c for c in (pcb[1] if pcb[0] == "and" else [pcb]) if c not in oc]
+                                inner = And(*ic)
+                                from ..analysis import atoms_of
+                                facts = [Atom(a) for a in atoms_of(inner) if a.startswith(("ok(", "some("))]
+                                fwd, _ = implies(And(overdue, *facts), inner)
+                                bwd, _ = implies(inner, Or(overdue, cmp_formula("==", *_cmp_terms(overdue))))
+                                if not (fwd and bwd):
+                                    okc = False
+                                    why = ("the retry broadcast is reached under `%s`, which is not equivalent to the overdue test `%s`: some overdue "
+                                           "requests are never retried (or fresh ones are)" % (show(inner), show(overdue)))
+                        R.judge(okc, prefix + ".Y3", key(sn, "retry for every request older than sync_retry_delay, and only those" + tag), fl[0]["sp"],
+                                show(overdue) if overdue is not None else "", why)
                     resets = [n for n in uncond_subnodes(tb) if n["k"] == "mcall" and n["name"] == "reset"]
                     R.judge(bool(resets), prefix + ".Y3", key(sn, "retry timer re-armed on every path" + tag), tb["sp"], "",
                             "the retry arm does not unconditionally re-arm its timer: after one expiry no further retries happen")
